@@ -12,6 +12,14 @@ def stubUri (_strict ae ale : Bool) (s : Str) : Bool :=
   comps.all (·.all stubLoose) &&
   (if ale then comps.dropLast.all (!·.isEmpty) else if ae then true else comps.all (!·.isEmpty))
 
-def oracles : Oracles := ⟨stubUri, fun s => s == cs!"x_" ⟩
+def stubLow (c : Char) : Bool := ('a' ≤ c && c ≤ 'z')
+def stubWord (c : Char) : Bool := stubLow c || c.isDigit || c == '_'
+def stubCustom (s : Str) : Bool :=
+  let s := if s.getLast? == some '\n' then s.dropLast else s
+  match s with
+  | ['x', '_'] => true
+  | 'x' :: '_' :: c :: d :: rest => stubLow c && stubWord d && rest.all stubWord
+  | _ => false
+def oracles : Oracles := ⟨stubUri, stubCustom⟩
 
 end Abverif.Wamp
